@@ -568,18 +568,18 @@ func initReflect(i *interpreter) {
 	}
 
 	i.rtypeMethods = methodSet{
-		"Bits":      newMethod(i.reflectPackage, rtypeType, "Bits"),
-		"Elem":      newMethod(i.reflectPackage, rtypeType, "Elem"),
-		"Field":     newMethod(i.reflectPackage, rtypeType, "Field"),
-		"In":        newMethod(i.reflectPackage, rtypeType, "In"),
-		"Kind":      newMethod(i.reflectPackage, rtypeType, "Kind"),
-		"NumField":  newMethod(i.reflectPackage, rtypeType, "NumField"),
-		"NumIn":     newMethod(i.reflectPackage, rtypeType, "NumIn"),
-		"NumMethod": newMethod(i.reflectPackage, rtypeType, "NumMethod"),
-		"NumOut":    newMethod(i.reflectPackage, rtypeType, "NumOut"),
-		"Out":       newMethod(i.reflectPackage, rtypeType, "Out"),
-		"Size":      newMethod(i.reflectPackage, rtypeType, "Size"),
-		"String":    newMethod(i.reflectPackage, rtypeType, "String"),
+		"Bits":       newMethod(i.reflectPackage, rtypeType, "Bits"),
+		"Elem":       newMethod(i.reflectPackage, rtypeType, "Elem"),
+		"Field":      newMethod(i.reflectPackage, rtypeType, "Field"),
+		"In":         newMethod(i.reflectPackage, rtypeType, "In"),
+		"Kind":       newMethod(i.reflectPackage, rtypeType, "Kind"),
+		"NumField":   newMethod(i.reflectPackage, rtypeType, "NumField"),
+		"NumIn":      newMethod(i.reflectPackage, rtypeType, "NumIn"),
+		"NumMethod":  newMethod(i.reflectPackage, rtypeType, "NumMethod"),
+		"NumOut":     newMethod(i.reflectPackage, rtypeType, "NumOut"),
+		"Out":        newMethod(i.reflectPackage, rtypeType, "Out"),
+		"Size":       newMethod(i.reflectPackage, rtypeType, "Size"),
+		"String":     newMethod(i.reflectPackage, rtypeType, "String"),
 		"Name":       newMethod(i.reflectPackage, rtypeType, "Name"),
 		"PkgPath":    newMethod(i.reflectPackage, rtypeType, "PkgPath"),
 		"Len":        newMethod(i.reflectPackage, rtypeType, "Len"),
